@@ -310,25 +310,17 @@ pub fn dump_midi_event_meta(bin: &Vec<u8>, pos: &mut usize, info: &mut MidiReade
             *pos += 3 + meta_len;
             msg
         },
-        0xF0 => { // SysEx = 0xF0 ... 0xF7
-            let mut m = String::new();
-            let mut index = 0;
-            while *pos < bin.len() {
-                let b = bin[*pos];
-                if index == 1 { // SysExの2バイト目はSysExの長さを表す
-                    m.push_str(&format!("/*len:{:02X}*/", b));
-                } else {
-                    m.push_str(&format!("{:02X}", b));
-                    if b != 0xf7 {
-                        m.push(',');
-                    }
-                }
-                if bin[*pos] == 0xf7 {
-                    *pos += 1;
-                    break;
-                }
+        0xF0 => { // SysEx = 0xF0, length (variable-length quantity), that many bytes (the last one is 0xF7)
+            let mut m = String::from("F0,");
+            *pos += 1;
+            // the length field tells where the message ends: an 0xF7 among the data bytes is data
+            let len = array_readl_delta_time(bin, pos);
+            m.push_str(&format!("/*len:{:02X}*/", len));
+            for i in 0..len {
+                if *pos >= bin.len() { break; }
+                m.push_str(&format!("{:02X}", bin[*pos]));
+                if i + 1 < len { m.push(','); }
                 *pos += 1;
-                index += 1;
             }
             format!("SysEx$={};", m)
         },
